@@ -113,4 +113,17 @@ theorem C10_cards (ops : WOps W) (flop : List Card) (ranges : List (List (Combo 
   obtain ⟨sd, h1, h2, _, _, h5⟩ := C02.C02_payload ops flop ranges a b h d hd
   exact ⟨sd, h1, by rw [h2]; exact h5⟩
 
+/-- the closure hypothesis of `C10_prob` holds for every rounded product `rnd (a * b)` over the rationals whose
+rounding is monotone and fixes 0 and 1 — which is what IEEE-754 round-to-nearest is on binary32 -/
+theorem C10_prob_rounding (rnd : Rat → Rat) (hmono : ∀ x y, x ≤ y → rnd x ≤ rnd y) (h0 : rnd 0 = 0) (h1 : rnd 1 = 1)
+    (a b : Rat) (ha : 0 ≤ a ∧ a ≤ 1) (hb : 0 ≤ b ∧ b ≤ 1) : 0 ≤ rnd (a * b) ∧ rnd (a * b) ≤ 1 := by
+  have hab0 : 0 ≤ a * b := Rat.mul_nonneg ha.1 hb.1
+  have hab1 : a * b ≤ 1 := by
+    have : a * b ≤ a * 1 := Rat.mul_le_mul_of_nonneg_left hb.2 ha.1
+    rw [Rat.mul_one] at this
+    exact Rat.le_trans this ha.2
+  constructor
+  · have := hmono 0 (a * b) hab0; rw [h0] at this; exact this
+  · have := hmono (a * b) 1 hab1; rw [h1] at this; exact this
+
 end EspadaVerif.C10
